@@ -6,7 +6,7 @@ import json, os, shutil, subprocess, sys, tempfile, warnings
 from concurrent.futures import ProcessPoolExecutor
 
 sys.path.insert(0, '/verif')
-PROPS = [f'C{i:02d}' for i in range(1, 21) if i != 6]
+PROPS = [f'C{i:02d}' for i in range(1, 21)]
 
 
 def _run(args):
